@@ -81,6 +81,28 @@ def exc():
     return ScriptErr(CUR[0][1])
 
 
+def stepval():
+    """value-producing callee of the straight-line function s: ('sval', v) returns v, ('sraise', v) raises"""
+    if POS[0] >= len(SCRIPT):
+        raise BadScript("script exhausted in stepval")
+    op = SCRIPT[POS[0]]
+    POS[0] += 1
+    CUR[0] = op
+    LAST[0] = op[0]
+    LOG.append(("env", op[0], op[1]))
+    if op[0] in ("sval", "slast"):
+        return op[1]
+    if op[0] == "sraise":
+        raise ScriptErr(op[1])
+    raise BadScript(f"stepval at {op}")
+
+
+def sitems(name):
+    """iterator of the straight-line function: the loop statement itself is an environment event"""
+    LOG.append(("env", "sloop_" + name, 0))
+    return _Iter()
+
+
 def items():
     return _Iter()
 
